@@ -1,8 +1,10 @@
 """Trace validation with silent steps (linearizability): the trace module reads trace.ndjson itself, TLC searches
 depth-first for a placement of the silent steps; acceptance = the invariant NotDone is 'violated' (end of log reached)."""
-import re
+import json
+import os
 
 from . import flows, tlc
+from .units import Unit, Inconclusive, run_h
 
 
 def validate(specdir, module, tracepath, cfgkind="", timeout=600):
@@ -26,3 +28,94 @@ def validate(specdir, module, tracepath, cfgkind="", timeout=600):
         return res          # search exhausted without reaching the end: rejected
     res["error"] = "TLC status %s" % r.status
     return res
+
+
+class LinUnit(Unit):
+    """code -> model with silent steps: a driver records concurrent histories of the real object (invoke/return events,
+    forced schedules, mixes under a watchdog; histories separated by {"ev":"reset"}, each ending with a "final" event);
+    TLC searches depth-first for a linearization of every history against the trace module."""
+    def __init__(self, sub, module, command, quick_args, thorough_args, label, name=None):
+        self.sub, self.module, self.command = sub, module, command
+        self.quick_args, self.thorough_args, self.label = quick_args, thorough_args, label
+        self.name = name or (module + ":" + command)
+        self.info = {}
+
+    def summary(self):
+        return json.dumps(self.info)
+
+    def run(self, ctx):
+        tr = os.path.join(ctx.out, self.command + ".ndjson")
+        args = self.thorough_args if ctx.thorough else self.quick_args
+        p = run_h(ctx, [self.command, "-seed", str(ctx.seed), "-out", tr] + [str(a) for a in args], timeout=900)
+        if p.returncode != 0:
+            raise Inconclusive("%s died: %s" % (self.command, (p.stderr or p.stdout)[-1500:]))
+        self.info["driver"] = p.stdout.strip()
+        with open(tr) as fh:
+            lines = [x for x in fh.read().splitlines() if x.strip()]
+        hists = split_traces_ev(lines)
+        total = len(hists)
+        rejected = 0
+        for rnd in range(8):
+            cur = os.path.join(ctx.out, self.command + ".validate.ndjson")
+            with open(cur, "w") as fh:
+                for h in hists:
+                    fh.write("\n".join(h) + "\n")
+            v = validate(ctx.spec(self.sub), self.module, cur, timeout=900)
+            ctx.bump("trace_validation_states", v["tlc"].distinct)
+            if v.get("error"):
+                save = os.path.join(ctx.out, self.module + ".out")
+                open(save, "w").write(v["tlc"].out)
+                raise Inconclusive("linearizability search did not run: %s (%s)" % (v["error"], save))
+            if v["accepted"]:
+                break
+            hw = v["high_water"]          # 1-based index of the furthest line reached = first line that could not be consumed
+            pos, bad = 0, None
+            for i, h in enumerate(hists):
+                if pos < hw <= pos + len(h):
+                    bad = i
+                    break
+                pos += len(h)
+            if bad is None:
+                raise Inconclusive("cannot locate the rejected history (high water %s)" % hw)
+            h = [json.loads(x) for x in hists[bad]]
+            off = h[hw - pos - 1]
+            if off.get("ev") == "final" and off.get("hung"):
+                sig = self.label + ":deadlock:%s" % off.get("scenario", "history")
+                what = self.label + ": calls never returned (threads %s hung) in schedule %s" % (off["hung"], off.get("scenario", "free-running history"))
+            else:
+                sig = self.label + ":lin:%s" % off.get("ev")
+                what = self.label + ": history is not linearizable; no placement of the linearization points explains %s" % json.dumps(off)
+            if not any(x["sig"] == sig for x in ctx.violations):
+                ctx.violation(self.name, sig, what, {"kind": "history", "history": h})
+            rejected += 1
+            del hists[bad]
+        else:
+            ctx.inconclusive.append(self.module + ": more than 8 rejected histories, rest not validated")
+        ctx.validated += total - rejected
+        self.info["histories"] = total
+        self.info["rejected"] = rejected
+        if hists:
+            ctx.sample({"unit": self.name, "flow": "code->model (concurrent history, first events)", "history": [json.loads(x) for x in hists[min(4, len(hists) - 1)][:10]]})
+
+    def replay(self, ctx, data):
+        tr = os.path.join(ctx.out, "replay.ndjson")
+        with open(tr, "w") as fh:
+            for e in data["history"]:
+                fh.write(json.dumps(e) + "\n")
+        v = validate(ctx.spec(self.sub), self.module, tr)
+        print("accepted" if v["accepted"] else "rejected at line %s" % v["high_water"])
+        return 0 if v["accepted"] else 1
+
+
+def split_traces_ev(lines):
+    out, cur = [], []
+    for l in lines:
+        if '"ev":"reset"' in l.replace(" ", "") and cur:
+            out.append(cur)
+            cur = []
+        cur.append(l)
+    if cur:
+        out.append(cur)
+    return out
+
+
